@@ -2,6 +2,8 @@
 
 package docx
 
+import "strconv"
+
 // Verification hooks (add-only): read access to the parsed element list in
 // document order, which has no exported accessor.
 
@@ -60,4 +62,101 @@ func (r *Reader) VerifElements() []VerifElem {
 func VerifShouldExcludeParagraph(text string, headerTexts, footerTexts []string, opts ExtractOptions) bool {
 	r := &Reader{headerTexts: headerTexts, footerTexts: footerTexts}
 	return r.shouldExcludeParagraph(text, opts)
+}
+
+// ---- C15: document-level Markdown model ----
+
+// VerifListFormat exposes (*Reader).getListFormat as the Markdown list writer reads it:
+// is the (numID, level) pair an ordered list, and its start value.
+func (r *Reader) VerifListFormat(numID string, level int) (ordered bool, startAt int) {
+	lt, _, start := r.getListFormat(numID, level)
+	return lt == ListTypeOrdered, start
+}
+
+// VerifParagraphCount is len(r.paragraphs) (the second operand of the writers' empty-document test).
+func (r *Reader) VerifParagraphCount() int { return len(r.paragraphs) }
+
+// VerifNumFmt says what numbering.xml defines for one (numId, ilvl) pair of a reader
+// built by VerifNewReader: an ordered (decimal) or bullet level and its start value
+// (Start "" = no w:start element).
+type VerifNumFmt struct {
+	NumID   string
+	Level   int
+	Ordered bool
+	Start   string
+}
+
+// VerifMeta is what Metadata() reads: docProps/core.xml (title, creator, subject, the
+// comma-separated keywords string) and docProps/app.xml (Application). HasCore / HasApp
+// false leave the part nil (a package without it).
+type VerifMeta struct {
+	HasCore     bool
+	Title       string
+	Creator     string
+	Subject     string
+	Keywords    string
+	HasApp      bool
+	Application string
+}
+
+// VerifNewReader builds a Reader (no package behind it) whose r.elements are the given
+// elements in order, whose r.paragraphs has nParas entries, with the given header / footer
+// part texts, document properties and numbering definitions (nil fmts: no numbering part,
+// numberingResolver nil). Only what the Markdown writers read is filled in.
+func VerifNewReader(elems []VerifElem, headerTexts, footerTexts []string, meta VerifMeta, nParas int, fmts []VerifNumFmt) *Reader {
+	r := &Reader{headerTexts: headerTexts, footerTexts: footerTexts}
+	if meta.HasCore {
+		r.coreProps = &corePropertiesXML{Title: meta.Title, Creator: meta.Creator, Subject: meta.Subject, Keywords: meta.Keywords}
+	}
+	if meta.HasApp {
+		r.appProps = &appPropertiesXML{Application: meta.Application}
+	}
+	if fmts != nil {
+		num := &numberingXML{}
+		byID := map[string]int{}
+		for _, f := range fmts {
+			i, ok := byID[f.NumID]
+			if !ok {
+				i = len(num.AbstractNums)
+				byID[f.NumID] = i
+				abs := strconv.Itoa(i)
+				num.AbstractNums = append(num.AbstractNums, abstractNumXML{AbstractNumID: abs})
+				n := numXML{NumID: f.NumID}
+				n.AbstractNumID.Val = abs
+				num.Nums = append(num.Nums, n)
+			}
+			lvl := lvlXML{ILvl: strconv.Itoa(f.Level)}
+			lvl.Start.Val = f.Start
+			if f.Ordered {
+				lvl.NumFmt.Val = "decimal"
+				lvl.LvlText.Val = "%1."
+			} else {
+				lvl.NumFmt.Val = "bullet"
+				lvl.LvlText.Val = "•"
+			}
+			num.AbstractNums[i].Levels = append(num.AbstractNums[i].Levels, lvl)
+		}
+		r.numbering = num
+		r.numberingResolver = NewNumberingResolver(num)
+	}
+	for _, e := range elems {
+		switch e.Kind {
+		case "p":
+			p := &parsedParagraph{Text: e.Text, StyleID: e.StyleID, IsHeading: e.IsHeading, Level: e.Level,
+				IsListItem: e.IsListItem, NumID: e.NumID, ListLevel: e.ListLevel}
+			r.elements = append(r.elements, parsedElement{Type: "paragraph", Paragraph: p})
+		case "tbl":
+			t := &ParsedTable{}
+			for _, row := range e.Rows {
+				pr := ParsedTableRow{}
+				for _, c := range row {
+					pr.Cells = append(pr.Cells, ParsedTableCell{Text: c.Text, ColSpan: c.ColSpan, RowSpan: c.RowSpan, IsMergedContinuation: c.Cont})
+				}
+				t.Rows = append(t.Rows, pr)
+			}
+			r.elements = append(r.elements, parsedElement{Type: "table", Table: t})
+		}
+	}
+	r.paragraphs = make([]parsedParagraph, nParas)
+	return r
 }
